@@ -39,6 +39,67 @@ def ref_step(r, b):
     return (0x80, 0xBF, rem - 1)
 
 
+def check_builders_copy(chk, rule, prog, eff, subjects, seth):
+    """each builder attaches (through the set-handle routine) a block it obtained from the allocator with a request equal to the
+    length, filled by memcpy / memmove of exactly that length (nothing to copy for an empty payload), and the attached length is the
+    caller's length (or strlen of the caller's string)"""
+    for name, kind in subjects:
+        if name not in prog.funcs:
+            continue
+        fn = prog.fn(name)
+        # library routines this function delegates the copy/attachment to are inlined (so the rule speaks about the
+        # buffer that finally reaches the set-handle routine, whoever allocates and copies it)
+        import ownership as O_
+        inl = set(O_.static_callees(prog, eff, name))
+        for c_ in eff.transitive_callees(name):
+            if c_ in prog.funcs and c_ not in (seth, name) and c_ not in eff.transitive_callees(c_) and \
+                    seth in eff.transitive_callees(c_):
+                inl.add(c_)
+                inl |= O_.static_callees(prog, eff, c_)
+        paths_ = P.Executor(prog, eff, inline=inl).run(name)
+        names_ = [p_["name"] for p_ in fn.params]
+        n_attach = 0
+        good = True
+        det = ""
+        for pa in paths_:
+            for cl in pa.calls(seth):
+                n_attach += 1
+                h, ln = cl.args[1], cl.args[2]
+                mc = [e for e in pa.events if e.kind == "call" and e.callee == "memcpy"]
+                okh = h[0] == "call" and h[1] == "_cbor_malloc"
+                okcpy = any(m.args[0] == h and m.args[2] == ln for m in mc) or \
+                    (not mc and (pa.st.eqc.get(ln) == 0 or pa.st.hi.get(ln, 1) == 0))   # nothing to copy for an empty string
+                # the allocation request equals the length
+                mal = [e for e in pa.events if e.kind == "call" and e.res == h]
+                okal = bool(mal) and mal[0].args[0] == ln
+                # ... and it is the caller's length (or strlen of the caller's string)
+                if kind == "param":
+                    okln = "length" in names_ and ln == ("arg", names_.index("length"))
+                else:
+                    okln = ln[0] == "call" and ln[1] == "strlen" and any(e.kind == "call" and e.res == ln and e.args[0] == ("arg", 0) for e in pa.events)
+                if not (okh and okcpy and okal and okln):
+                    good = False
+                    det = "handle=%r length=%r copy/alloc mismatch" % (h, ln) if okln else \
+                        "attached length %s is not the %s" % (DR.fmt_term(ln), "length the caller passed" if kind == "param" else "strlen of the argument")
+        chk.ob(rule, "%s attaches the copied buffer with the same length" % name, good and n_attach >= 1,
+               "%s:%d" % (fn.file, fn.line), fn=name, detail=det or ("no attachment found" if not n_attach else ""))
+        # ... and never attaches a payload behind the set-handle routine's back (the routine is where the payload is looked at:
+        # code points counted, for text)
+        data_off = prog.field_offset("cbor_item_t", "data")
+        direct = None
+        for pa in paths_:
+            for e in pa.events:
+                if e.kind == "store":
+                    b_, o_ = P.ptr_key(e.args[0])
+                    if o_ == data_off and isinstance(b_, tuple) and b_[0] == "call" and b_[1].startswith("cbor_new_definite_") and e.fn.name != seth and \
+                            not (P.is_const(e.args[1]) and e.args[1][1] == 0):
+                        direct = e
+        chk.ob(rule, "%s hands every payload to %s (no direct store to a fresh item's data field)" % (name, seth), direct is None,
+               "%s:%d" % (fn.file, fn.line), fn=name, key="direct:%s:%s" % (name, seth),
+               detail="" if direct is None else "stores the payload pointer itself at %s: the item's derived fields (length, code point count) "
+                                                "are whatever they were" % direct.ins.loc())
+
+
 def run(ctx, chk):
     prog = ctx.prog()
     eff = ctx.effects(prog)
@@ -537,44 +598,8 @@ def run(ctx, chk):
         chk.ob("C16.attach", "path %d: code point count = counter result (OK) / 0 (invalid)" % k, good, where_s, fn=sh.name,
                key="cp:%d" % k, detail="" if good else "stores %r on the status %s edge" % (v, "OK" if is_ok else "not-OK"))
     # ---- reach -----------------------------------------------------------------------
-    for name, kind in (("cbor_build_string", "strlen"), ("cbor_build_stringn", "param"), ("cbor_builder_string_callback", "param")):
-        fn = prog.fn(name)
-        # library routines this function delegates the copy/attachment to are inlined (so the rule speaks about the
-        # buffer that finally reaches cbor_string_set_handle, whoever allocates and copies it)
-        import ownership as O_
-        inl = set(O_.static_callees(prog, eff, name))
-        for c_ in eff.transitive_callees(name):
-            if c_ in prog.funcs and c_ not in ("cbor_string_set_handle", name) and c_ not in eff.transitive_callees(c_) and \
-                    "cbor_string_set_handle" in eff.transitive_callees(c_):
-                inl.add(c_)
-                inl |= O_.static_callees(prog, eff, c_)
-        paths_ = P.Executor(prog, eff, inline=inl).run(name)
-        names_ = [p_["name"] for p_ in fn.params]
-        n_attach = 0
-        good = True
-        det = ""
-        for pa in paths_:
-            for cl in pa.calls("cbor_string_set_handle"):
-                n_attach += 1
-                h, ln = cl.args[1], cl.args[2]
-                mc = [e for e in pa.events if e.kind == "call" and e.callee == "memcpy"]
-                okh = h[0] == "call" and h[1] == "_cbor_malloc"
-                okcpy = any(m.args[0] == h and m.args[2] == ln for m in mc) or \
-                    (not mc and (pa.st.eqc.get(ln) == 0 or pa.st.hi.get(ln, 1) == 0))   # nothing to copy for an empty string
-                # the allocation request equals the length
-                mal = [e for e in pa.events if e.kind == "call" and e.res == h]
-                okal = bool(mal) and mal[0].args[0] == ln
-                # ... and it is the caller's length (or strlen of the caller's string)
-                if kind == "param":
-                    okln = "length" in names_ and ln == ("arg", names_.index("length"))
-                else:
-                    okln = ln[0] == "call" and ln[1] == "strlen" and any(e.kind == "call" and e.res == ln and e.args[0] == ("arg", 0) for e in pa.events)
-                if not (okh and okcpy and okal and okln):
-                    good = False
-                    det = "handle=%r length=%r copy/alloc mismatch" % (h, ln) if okln else \
-                        "attached length %s is not the %s" % (DR.fmt_term(ln), "length the caller passed" if kind == "param" else "strlen of the argument")
-        chk.ob("C16.reach", "%s attaches the copied buffer with the same length" % name, good and n_attach >= 1,
-               "%s:%d" % (fn.file, fn.line), fn=name, detail=det or ("no attachment found" if not n_attach else ""))
+    check_builders_copy(chk, "C16.reach", prog, eff, (("cbor_build_string", "strlen"), ("cbor_build_stringn", "param"), ("cbor_builder_string_callback", "param")),
+                        "cbor_string_set_handle")
     cb = prog.fn("cbor_builder_string_callback")
     tc = eff.summ[cb.name]["callees"]
     bad = [x for x in tc if x in ("_cbor_unicode_codepoint_count", "cbor_string_codepoint_count", "_cbor_unicode_decode")]
